@@ -886,4 +886,596 @@ theorem decideRoots_vals {h : Host} {cid : Nat} {p : Prices} {off len : Nat} {si
     simp [lockForRevision, hc, hr, hp, hl, h1, h2, h3, reject] at hok
   simp [decideRoots, lockForRevision, hc, hr, hp, hl, h1, h2, h3, hb, hv, ha]
 
+
+/-! ## accounts and pools -/
+
+/-- what a deposit list gives one account -/
+def depositTo (a : Nat) (ds : List (Nat × Nat)) : Nat := ((ds.filter (·.1 == a)).map (·.2)).sum
+
+theorem depositTo_cons (a : Nat) (d : Nat × Nat) (ds : List (Nat × Nat)) :
+    depositTo a (d :: ds) = (if d.1 = a then d.2 else 0) + depositTo a ds := by
+  unfold depositTo
+  by_cases h : d.1 = a <;> simp [List.filter_cons, h]
+
+theorem creditAccounts_apply (ds : List (Nat × Nat)) : ∀ (acc : Nat → Nat) (a : Nat),
+    creditAccounts acc ds a = acc a + depositTo a ds := by
+  induction ds with
+  | nil => intro acc a; simp [creditAccounts, depositTo]
+  | cons d ds ih =>
+    intro acc a
+    obtain ⟨k, v⟩ := d
+    simp only [creditAccounts, ih, depositTo_cons]
+    unfold upd
+    by_cases h : a = k
+    · subst h; simp; omega
+    · have h' : ¬ k = a := fun e => h e.symm
+      simp [h, h']
+
+theorem creditPools_apply (ds : List (Nat × Nat)) : ∀ (pools : Nat → Option Nat) (a : Nat),
+    poolBal (creditPools pools ds) a = poolBal pools a + depositTo a ds := by
+  induction ds with
+  | nil => intro pools a; simp [creditPools, depositTo]
+  | cons d ds ih =>
+    intro pools a
+    obtain ⟨k, v⟩ := d
+    simp only [creditPools, ih, depositTo_cons]
+    unfold upd poolBal
+    by_cases h : a = k
+    · subst h; simp; omega
+    · have h' : ¬ k = a := fun e => h e.symm
+      simp [h, h']
+
+/-- the deposits add up: over any duplicate-free key list covering the deposited accounts, the
+per-account credits sum to the total the revision moved -/
+theorem depositTo_sum (ds : List (Nat × Nat)) : ∀ (ks : List Nat), ks.Nodup → (∀ d ∈ ds, d.1 ∈ ks) →
+    (ks.map fun a => depositTo a ds).sum = depositTotal ds := by
+  induction ds with
+  | nil =>
+    intro ks _ _
+    have : ∀ l : List Nat, (l.map fun _ => 0).sum = 0 := by intro l; induction l <;> simp [*]
+    simpa [depositTo, depositTotal] using this ks
+  | cons d ds ih =>
+    intro ks hn hk
+    have hd : d.1 ∈ ks := hk d (by simp)
+    have ih' := ih ks hn (fun d' hd' => hk d' (by simp [hd']))
+    simp only [depositTo_cons, depositTotal, List.map_cons, List.sum_cons] at *
+    rw [← ih']
+    -- Σ (if d.1 = a then d.2 else 0) + f a = d.2 + Σ f a
+    have key : ∀ (l : List Nat), l.Nodup → d.1 ∈ l →
+        (l.map fun a => (if d.1 = a then d.2 else 0) + depositTo a ds).sum = d.2 + (l.map fun a => depositTo a ds).sum := by
+      intro l
+      induction l with
+      | nil => intro _ h; simp at h
+      | cons x l ihl =>
+        intro hn h
+        have hn' := List.nodup_cons.mp hn
+        simp only [List.map_cons, List.sum_cons]
+        by_cases hx : d.1 = x
+        · have hnotin : d.1 ∉ l := hx ▸ hn'.1
+          have : (l.map fun a => (if d.1 = a then d.2 else 0) + depositTo a ds) = l.map fun a => depositTo a ds := by
+            apply List.map_congr_left
+            intro a ha
+            have : ¬ d.1 = a := fun e => hnotin (e ▸ ha)
+            simp [this]
+          rw [this]; simp [hx]; omega
+        · have hin : d.1 ∈ l := by
+            rcases List.mem_cons.mp h with h | h
+            · exact absurd h hx
+            · exact h
+          rw [ihl hn'.2 hin]; simp [hx]; omega
+    exact key ks hn hd
+
+/-- replenish deposits for a duplicate-free account list -/
+theorem depositTo_replenish (bal : Nat → Nat) (target : Nat) (accounts : List Nat) (hn : accounts.Nodup) (a : Nat) :
+    depositTo a (replenishDeposits bal target accounts) = if a ∈ accounts then target - bal a else 0 := by
+  induction accounts with
+  | nil => simp [replenishDeposits, depositTo]
+  | cons x xs ih =>
+    have hn' := List.nodup_cons.mp hn
+    have : replenishDeposits bal target (x :: xs) = (x, target - bal x) :: replenishDeposits bal target xs := rfl
+    rw [this, depositTo_cons, ih hn'.2]
+    by_cases h : x = a
+    · subst h; simp [hn'.1]
+    · have h' : ¬ a = x := fun e => h e.symm
+      simp [h, h']
+
+theorem hasDup_false {l : List Nat} (h : hasDup l = false) : l.Nodup := by
+  induction l with
+  | nil => simp
+  | cons a l ih =>
+    simp only [hasDup, Bool.or_eq_false_iff] at h
+    refine List.nodup_cons.mpr ⟨?_, ih h.2⟩
+    simpa using h.1
+
+/-! ### debit -/
+
+def poolSum (pools : Nat → Option Nat) (ps : List Nat) : Nat := (ps.map (poolBal pools)).sum
+
+theorem drawable_le (pools : Nat → Option Nat) (ps : List Nat) : ∀ (d cost : Nat),
+    drawable pools d ps cost ≤ d + poolSum pools ps := by
+  induction ps with
+  | nil => intro d cost; simp [drawable, poolSum]
+  | cons p ps ih =>
+    intro d cost
+    simp only [drawable]
+    split
+    · simp [poolSum]
+    · have := ih (d + poolBal pools p) cost
+      simp only [poolSum, List.map_cons, List.sum_cons] at *
+      omega
+
+theorem poolBal_upd_other (pools : Nat → Option Nat) (p q : Nat) (v : Option Nat) (h : q ≠ p) :
+    poolBal (upd pools p v) q = poolBal pools q := by
+  simp [poolBal, upd, h]
+
+theorem poolSum_upd_notin (pools : Nat → Option Nat) (p : Nat) (v : Option Nat) (ps : List Nat) (h : p ∉ ps) :
+    poolSum (upd pools p v) ps = poolSum pools ps := by
+  unfold poolSum
+  congr 1
+  apply List.map_congr_left
+  intro q hq
+  exact poolBal_upd_other pools p q v (fun e => h (e ▸ hq))
+
+theorem drainPools_notin (ps : List Nat) : ∀ (pools : Nat → Option Nat) (remaining q : Nat),
+    q ∉ ps → drainPools pools ps remaining q = pools q := by
+  induction ps with
+  | nil => intro pools r q _; simp [drainPools]
+  | cons p ps ih =>
+    intro pools r q hq
+    have hqp : q ≠ p := fun e => hq (by simp [e])
+    have hqs : q ∉ ps := fun e => hq (by simp [e])
+    simp only [drainPools]
+    split
+    · rfl
+    · split
+      · exact ih pools r q hqs
+      · rw [ih _ _ q hqs]; simp [upd, hqp]
+
+/-- draining: what leaves the pools is exactly `remaining`, pools outside the list are untouched -/
+theorem drainPools_sum (ps : List Nat) : ∀ (pools : Nat → Option Nat) (remaining : Nat),
+    ps.Nodup → remaining ≤ poolSum pools ps →
+    poolSum (drainPools pools ps remaining) ps + remaining = poolSum pools ps := by
+  induction ps with
+  | nil => intro pools r _ h; simp [poolSum] at h; simp [drainPools, poolSum, h]
+  | cons p ps ih =>
+    intro pools r hn hle
+    have hn' := List.nodup_cons.mp hn
+    have hcons : ∀ f : Nat → Option Nat, poolSum f (p :: ps) = poolBal f p + poolSum f ps := by
+      intro f; simp [poolSum]
+    simp only [drainPools]
+    split
+    · rename_i h0; simp [h0]
+    · split
+      · rename_i hb
+        have hle' : r ≤ poolSum pools ps := by rw [hcons, hb] at hle; omega
+        have h1 := ih pools r hn'.2 hle'
+        have hp : poolBal (drainPools pools ps r) p = poolBal pools p := by
+          unfold poolBal; rw [drainPools_notin ps pools r p hn'.1]
+        rw [hcons, hcons, hp]; omega
+      · rename_i hr hb
+        have hmin : min (poolBal pools p) r ≤ poolBal pools p := Nat.min_le_left _ _
+        have hmin2 : min (poolBal pools p) r ≤ r := Nat.min_le_right _ _
+        have hs : poolSum (upd pools p (some (poolBal pools p - min (poolBal pools p) r))) ps = poolSum pools ps :=
+          poolSum_upd_notin pools p _ ps hn'.1
+        have hle' : r - min (poolBal pools p) r ≤ poolSum (upd pools p (some (poolBal pools p - min (poolBal pools p) r))) ps := by
+          rw [hs]; rw [hcons] at hle
+          by_cases hc : poolBal pools p ≤ r
+          · rw [Nat.min_eq_left hc]; omega
+          · rw [Nat.min_eq_right (by omega)]; omega
+        have h1 := ih _ _ hn'.2 hle'
+        have hp : poolBal (drainPools (upd pools p (some (poolBal pools p - min (poolBal pools p) r))) ps
+            (r - min (poolBal pools p) r)) p = poolBal pools p - min (poolBal pools p) r := by
+          unfold poolBal; rw [drainPools_notin ps _ _ p hn'.1]; simp [upd]
+        rw [hcons, hcons, hp]
+        rw [hs] at h1
+        omega
+
+/-- every pool only ever loses money in a drain -/
+theorem drainPools_le (ps : List Nat) : ∀ (pools : Nat → Option Nat) (remaining q : Nat),
+    poolBal (drainPools pools ps remaining) q ≤ poolBal pools q := by
+  induction ps with
+  | nil => intro pools r q; simp [drainPools]
+  | cons p ps ih =>
+    intro pools r q
+    simp only [drainPools]
+    split
+    · exact Nat.le_refl _
+    · split
+      · exact ih pools r q
+      · refine Nat.le_trans (ih _ _ q) ?_
+        by_cases hq : q = p
+        · subst hq; simp [poolBal, upd]
+        · rw [poolBal_upd_other _ _ _ _ hq]; exact Nat.le_refl _
+
+
+
+/-- attachment lists never hold a pool twice -/
+def AttInv (h : Host) : Prop := ∀ a, (h.attached a).Nodup
+
+theorem attachAll_nodup (l : List Link) : ∀ (att : Nat → List Nat), (∀ a, (att a).Nodup) →
+    ∀ a, (attachAll att l a).Nodup := by
+  induction l with
+  | nil => intro att h a; exact h a
+  | cons x l ih =>
+    intro att h a
+    simp only [attachAll]
+    apply ih
+    intro b
+    split
+    · exact h b
+    · rename_i hc
+      unfold upd
+      split
+      · rename_i hb; subst hb
+        have hnot : x.pool ∉ att x.account := by simpa using hc
+        exact List.nodup_append.mpr ⟨h _, by simp, by intro y hy z hz; simp at hz; subst hz; exact fun e => hnot (e ▸ hy)⟩
+      · exact h b
+
+theorem detachAll_nodup (l : List Link) : ∀ (att : Nat → List Nat), (∀ a, (att a).Nodup) →
+    ∀ a, (detachAll att l a).Nodup := by
+  induction l with
+  | nil => intro att h a; exact h a
+  | cons x l ih =>
+    intro att h a
+    simp only [detachAll]
+    apply ih
+    intro b
+    unfold upd
+    split
+    · exact (h _).erase _
+    · exact h b
+
+theorem apply_attInv {h : Host} (e : Effect) (hi : AttInv h) : AttInv (apply h e) := by
+  cases e with
+  | none => exact hi
+  | revise cid c roots => simp only [apply]; split <;> exact hi
+  | credit pool cid c ds =>
+    simp only [apply]
+    split
+    · exact hi
+    · cases pool <;> exact hi
+  | debit a cost => exact hi
+  | debitStore a cost root => exact hi
+  | attach l => exact attachAll_nodup l _ hi
+  | detach l => exact detachAll_nodup l _ hi
+
+theorem stepOp_attInv {h : Host} (op : Op) (hi : AttInv h) : AttInv (stepOp h op).1 := by
+  cases op with
+  | rpc r => exact apply_attInv _ hi
+  | tip n => exact hi
+  | time n => exact hi
+  | sector r => exact hi
+  | form cid c => simp only [stepOp]; split <;> exact hi
+  | renew cid newcid c =>
+    simp only [stepOp]
+    split
+    · split <;> exact hi
+    · exact hi
+
+theorem run_attInv (ops : List Op) : ∀ {h : Host}, AttInv h → AttInv (run h ops) := by
+  induction ops with
+  | nil => intro h hi; exact hi
+  | cons op ops ih => intro h hi; exact ih (stepOp_attInv op hi)
+
+/-- a successful `DebitAccount`: the books balance -/
+theorem debit_conserves (h : Host) (a cost : Nat) (hn : (h.attached a).Nodup) (hc : canDebit h a cost = true) :
+    (debit h a cost).accounts a + poolSum (debit h a cost).pools (h.attached a) + cost
+      = h.accounts a + poolSum h.pools (h.attached a) := by
+  simp only [canDebit, decide_eq_true_eq] at hc
+  have hle := drawable_le h.pools (h.attached a) (h.accounts a) cost
+  have hrem : cost - min (h.accounts a) cost ≤ poolSum h.pools (h.attached a) := by
+    by_cases hx : h.accounts a ≤ cost
+    · rw [Nat.min_eq_left hx]; omega
+    · rw [Nat.min_eq_right (by omega)]; omega
+  have hs := drainPools_sum (h.attached a) h.pools _ hn hrem
+  simp only [debit, upd_same]
+  have hmin : min (h.accounts a) cost ≤ h.accounts a := Nat.min_le_left _ _
+  have hmin2 : min (h.accounts a) cost ≤ cost := Nat.min_le_right _ _
+  omega
+
+/-- the account's own balance is used first -/
+theorem debit_own_first (h : Host) (a cost : Nat) :
+    (debit h a cost).accounts a = h.accounts a - min (h.accounts a) cost ∧
+    (h.accounts a < cost → (debit h a cost).accounts a = 0) ∧
+    (cost ≤ h.accounts a → (debit h a cost).pools = h.pools) := by
+  refine ⟨by simp [debit, upd_same], ?_, ?_⟩
+  · intro hlt; simp only [debit, upd_same]; rw [Nat.min_eq_left (by omega)]; omega
+  · intro hle
+    simp only [debit]
+    rw [Nat.min_eq_right hle, Nat.sub_self]
+    cases h.attached a <;> simp [drainPools]
+
+/-- nobody else's money moves -/
+theorem debit_frame (h : Host) (a cost : Nat) :
+    (∀ b, b ≠ a → (debit h a cost).accounts b = h.accounts b) ∧
+    (∀ p, p ∉ h.attached a → (debit h a cost).pools p = h.pools p) ∧
+    (∀ p, poolBal (debit h a cost).pools p ≤ poolBal h.pools p) ∧
+    (debit h a cost).attached = h.attached ∧ (debit h a cost).contracts = h.contracts := by
+  refine ⟨?_, ?_, ?_, rfl, rfl⟩
+  · intro b hb; simp [debit, upd, hb]
+  · intro p hp; exact drainPools_notin _ _ _ p hp
+  · intro p; exact drainPools_le _ _ _ p
+
+/-- pools are drained in attachment order: a later pool is touched only once every earlier one is empty -/
+theorem drainPools_order (ps : List Nat) : ∀ (pools : Nat → Option Nat) (remaining : Nat), ps.Nodup →
+    ∀ (l1 : List Nat) (p : Nat) (l2 : List Nat), ps = l1 ++ p :: l2 →
+      poolBal (drainPools pools ps remaining) p < poolBal pools p →
+      ∀ q ∈ l1, poolBal (drainPools pools ps remaining) q = 0 := by
+  induction ps with
+  | nil => intro pools r _ l1 p l2 h; simp at h
+  | cons x ps ih =>
+    intro pools r hn l1 p l2 hsplit hlt q hq
+    have hn' := List.nodup_cons.mp hn
+    cases l1 with
+    | nil => simp at hq
+    | cons y l1 =>
+      simp only [List.cons_append, List.cons.injEq] at hsplit
+      obtain ⟨hy, hps⟩ := hsplit
+      subst hy
+      have hpin : p ∈ ps := by rw [hps]; simp
+      have hpx : p ≠ x := fun e => hn'.1 (e ▸ hpin)
+      simp only [drainPools] at hlt ⊢
+      split at hlt
+      · exact absurd hlt (Nat.lt_irrefl _)
+      · rename_i hr0
+        simp only [hr0, if_false]
+        split at hlt
+        · rename_i hb
+          simp only [hb, if_true]
+          rcases List.mem_cons.mp hq with rfl | hq'
+          · unfold poolBal at hb ⊢; rw [drainPools_notin ps pools r q hn'.1]; exact hb
+          · exact ih pools r hn'.2 l1 p l2 hps hlt q hq'
+        · rename_i hb
+          simp only [hb, if_false]
+          have hlt' : poolBal (drainPools (upd pools x (some (poolBal pools x - min (poolBal pools x) r))) ps
+              (r - min (poolBal pools x) r)) p < poolBal (upd pools x (some (poolBal pools x - min (poolBal pools x) r))) p := by
+            rw [poolBal_upd_other _ _ _ _ hpx]; exact hlt
+          -- the tail changed p, so something remained after x: x was drained completely
+          have hrem : r - min (poolBal pools x) r ≠ 0 := by
+            intro h0
+            rw [h0] at hlt'
+            have : ∀ (f : Nat → Option Nat) (l : List Nat), drainPools f l 0 = f := by
+              intro f l; cases l <;> simp [drainPools]
+            rw [this] at hlt'
+            exact absurd hlt' (Nat.lt_irrefl _)
+          rcases List.mem_cons.mp hq with rfl | hq'
+          · have hle : poolBal pools q ≤ r := by
+              by_cases hc : poolBal pools q ≤ r
+              · exact hc
+              · rw [Nat.min_eq_right (by omega)] at hrem; omega
+            have : poolBal (drainPools (upd pools q (some (poolBal pools q - min (poolBal pools q) r))) ps
+                (r - min (poolBal pools q) r)) q = poolBal pools q - min (poolBal pools q) r := by
+              unfold poolBal; rw [drainPools_notin ps _ _ q hn'.1]; simp [upd]
+            rw [this, Nat.min_eq_left hle]; omega
+          · exact ih _ _ hn'.2 l1 p l2 hps hlt' q hq'
+
+
+
+/-! ## service only after payment -/
+
+def Ev.isService : Ev → Bool
+  | .read _ _ _ => true
+  | .store _ => true
+  | _ => false
+
+def Ev.isPaid : Ev → Bool
+  | .debit _ _ true => true
+  | _ => false
+
+/-- every read/store event is preceded by a successful debit event -/
+def paidFirst : Bool → List Ev → Bool
+  | _, [] => true
+  | paid, e :: es => if e.isService then paid && paidFirst paid es else paidFirst (paid || e.isPaid) es
+
+theorem paidFirst_noService (l : List Ev) (h : ∀ e ∈ l, e.isService = false) (paid : Bool) : paidFirst paid l = true := by
+  induction l generalizing paid with
+  | nil => rfl
+  | cons e es ih =>
+    simp only [paidFirst, h e (by simp)]
+    exact ih (fun e' he' => h e' (by simp [he'])) _
+
+theorem paidFirst_hasEvents (l : List Nat) (tail : List Ev) (ht : ∀ e ∈ tail, e.isService = false) :
+    paidFirst false (hasEvents l ++ tail) = true := by
+  apply paidFirst_noService
+  intro e he
+  rcases List.mem_append.mp he with he | he
+  · simp [hasEvents] at he; obtain ⟨r, _, rfl⟩ := he; rfl
+  · exact ht e he
+
+theorem paidFirst_hasEvents' (l : List Nat) : paidFirst false (hasEvents l) = true := by
+  have := paidFirst_hasEvents l [] (by simp)
+  simpa using this
+
+macro "paidall" : tactic =>
+  `(tactic| (repeat' (first | split | (dsimp only; split))
+             all_goals (first | rfl | (simp [reject, paidFirst, Ev.isService, Ev.isPaid]; done)
+                              | (apply paidFirst_hasEvents; simp [Ev.isService]; done)
+                              | (simp only [reject]; apply paidFirst_hasEvents; simp [Ev.isService]; done)
+                              | (simp only [reject]; exact paidFirst_hasEvents' _)
+                              | contradiction)))
+
+theorem decide_paidFirst (h : Host) (r : Req) : paidFirst false (decide h r).evs = true := by
+  cases r <;> simp only [decide]
+  case garbage => rfl
+  case latest cid => unfold decideLatest; paidall
+  case balance => rfl
+  case read p t root off len => unfold decideRead; paidall
+  case write p t len data => unfold decideWrite; paidall
+  case verify p t root leaf => unfold decideVerify; paidall
+  case free cid p chal is second => unfold decideFree; paidall
+  case append cid p chal sectors second =>
+    unfold decideAppend
+    paidall
+  case roots cid p off len sig => unfold decideRoots; paidall
+  case fund cid ds sig => unfold decideFund; paidall
+  case replenish pool cid accounts target chal second => unfold decideReplenish; paidall
+  case attach l => unfold decideAttach; paidall
+  case detach l => unfold decideDetach; paidall
+
+
+
+theorem decideReplenish_ok (h : Host) (pool : Bool) (cid : Nat) (accounts : List Nat) (target : Nat) (chal : Sig)
+    (second : Option Sig)
+    (hok : (decideReplenish h pool cid accounts target chal second).out.cls = .ok) :
+    hasDup accounts = false ∧
+    ((decideReplenish h pool cid accounts target chal second).eff = .none →
+      depositTotal (replenishDeposits (if pool then poolBal h.pools else h.accounts) target accounts) = 0) := by
+  revert hok
+  unfold decideReplenish
+  repeat' (first | split | (dsimp only; split))
+  all_goals (first
+    | (intro h; simp [reject] at h; done)
+    | (intro h; exact absurd h (lockForRevision_err (by assumption)))
+    | (intro _; refine ⟨by simp_all, fun _ => by assumption⟩)
+    | (intro _; refine ⟨by simp_all, fun hn => by simp at hn⟩)
+    | contradiction)
+
+theorem sum_eq_zero_of {l : List Nat} (h : l.sum = 0) : ∀ x ∈ l, x = 0 := by
+  induction l with
+  | nil => intro x hx; simp at hx
+  | cons a l ih =>
+    simp only [List.sum_cons] at h
+    intro x hx
+    rcases List.mem_cons.mp hx with rfl | hx
+    · omega
+    · exact ih (by omega) x hx
+
+theorem replenish_zero_total {bal : Nat → Nat} {target : Nat} {accounts : List Nat}
+    (h : depositTotal (replenishDeposits bal target accounts) = 0) : ∀ a ∈ accounts, target ≤ bal a := by
+  intro a ha
+  have := sum_eq_zero_of h (target - bal a) (by
+    simp only [replenishDeposits, List.map_map, List.mem_map]
+    exact ⟨a, ha, rfl⟩)
+  omega
+
+
+/-! ## how a contract evolves over a history -/
+
+/-- the relation between two states of one contract in the order the host held them -/
+structure Evolves (a b : Contract) : Prop where
+  rev : a.body.rev ≤ b.body.rev
+  same : a.body.rev = b.body.rev → b = a
+  capacity : a.body.capacity ≤ b.body.capacity
+  sum : b.body.renterOut + b.body.hostOut = a.body.renterOut + a.body.hostOut
+  hostOut : a.body.hostOut ≤ b.body.hostOut
+  missed : b.body.missedHost ≤ a.body.missedHost
+  totalColl : b.body.totalColl = a.body.totalColl
+  proofHeight : b.body.proofHeight = a.body.proofHeight
+  expHeight : b.body.expHeight = a.body.expHeight
+  renterKey : b.body.renterKey = a.body.renterKey
+  hostKey : b.body.hostKey = a.body.hostKey
+
+theorem Evolves.refl (a : Contract) : Evolves a a := by
+  constructor <;> simp
+
+theorem Evolves.trans {a b c : Contract} (h1 : Evolves a b) (h2 : Evolves b c) : Evolves a c := by
+  constructor
+  · exact Nat.le_trans h1.rev h2.rev
+  · intro he
+    have hab : a.body.rev = b.body.rev := by have := h1.rev; have := h2.rev; omega
+    have hbc : b.body.rev = c.body.rev := by omega
+    rw [h2.same hbc, h1.same hab]
+  · exact Nat.le_trans h1.capacity h2.capacity
+  · rw [h2.sum, h1.sum]
+  · exact Nat.le_trans h1.hostOut h2.hostOut
+  · exact Nat.le_trans h2.missed h1.missed
+  · rw [h2.totalColl, h1.totalColl]
+  · rw [h2.proofHeight, h1.proofHeight]
+  · rw [h2.expHeight, h1.expHeight]
+  · rw [h2.renterKey, h1.renterKey]
+  · rw [h2.hostKey, h1.hostKey]
+
+theorem evolves_of_revStep {h : Host} {cs : CState} {c : Contract} {roots : List Nat} {cost : Nat}
+    (hr : RevStep cs.c c cost) (hk : Keeps h cs c roots) : Evolves cs.c c := by
+  constructor
+  · rw [hr.rev]; omega
+  · intro he; rw [hr.rev] at he; omega
+  · exact hk.capMono
+  · have := hr.renterOut; have := hr.hostOut; omega
+  · rw [hr.hostOut]; omega
+  · exact hr.missed
+  · exact hr.totalColl
+  · exact hr.proofHeight
+  · exact hr.expHeight
+  · exact hr.renterKey
+  · exact hr.hostKey
+
+/-- one RPC: a contract that exists still exists afterwards and has evolved -/
+theorem step_evolves (h : Host) (r : Req) (cid : Nat) (cs : CState) (hc : h.contracts cid = some cs) :
+    ∃ cs', (step h r).1.contracts cid = some cs' ∧ Evolves cs.c cs'.c ∧ cs'.renewed = cs.renewed := by
+  have ho := decide_effectOk h r
+  simp only [step]
+  cases he : (Rhp.decide h r).eff with
+  | none => exact ⟨cs, hc, Evolves.refl _, rfl⟩
+  | revise cid' c roots =>
+    rw [he] at ho
+    obtain ⟨cs1, cost, hc1, _, hr, hk⟩ := ho
+    simp only [apply, hc1]
+    by_cases heq : cid = cid'
+    · subst heq
+      rw [hc] at hc1; simp only [Option.some.injEq] at hc1; subst hc1
+      exact ⟨{ cs with c := c, roots := roots }, by simp [upd_same], evolves_of_revStep hr hk, rfl⟩
+    · exact ⟨cs, by simp [upd_other _ _ _ _ heq, hc], Evolves.refl _, rfl⟩
+  | credit pool cid' c ds =>
+    rw [he] at ho
+    obtain ⟨cs1, hc1, _, hr, hk⟩ := ho
+    simp only [apply, hc1]
+    by_cases heq : cid = cid'
+    · subst heq
+      rw [hc] at hc1; simp only [Option.some.injEq] at hc1; subst hc1
+      cases pool <;> exact ⟨{ cs with c := c }, by simp [upd_same], evolves_of_revStep hr hk, rfl⟩
+    · cases pool <;> exact ⟨cs, by simp [upd_other _ _ _ _ heq, hc], Evolves.refl _, rfl⟩
+  | debit a cost => exact ⟨cs, hc, Evolves.refl _, rfl⟩
+  | debitStore a cost root => exact ⟨cs, hc, Evolves.refl _, rfl⟩
+  | attach l => exact ⟨cs, hc, Evolves.refl _, rfl⟩
+  | detach l => exact ⟨cs, hc, Evolves.refl _, rfl⟩
+
+theorem stepOp_evolves (h : Host) (op : Op) (cid : Nat) (cs : CState) (hc : h.contracts cid = some cs) :
+    ∃ cs', (stepOp h op).1.contracts cid = some cs' ∧ Evolves cs.c cs'.c := by
+  cases op with
+  | rpc r => obtain ⟨cs', h1, h2, _⟩ := step_evolves h r cid cs hc; exact ⟨cs', h1, h2⟩
+  | tip n => exact ⟨cs, hc, Evolves.refl _⟩
+  | time n => exact ⟨cs, hc, Evolves.refl _⟩
+  | sector r => exact ⟨cs, hc, Evolves.refl _⟩
+  | form cid' c =>
+    simp only [stepOp]
+    split
+    · rename_i hf
+      have hne : cid ≠ cid' := by
+        intro e; subst e
+        simp only [formOk, Bool.and_eq_true] at hf
+        have := hf.1.1.1.1.1.1.1.1
+        rw [hc] at this; simp at this
+      exact ⟨cs, by simp [upd_other _ _ _ _ hne, hc], Evolves.refl _⟩
+    · exact ⟨cs, hc, Evolves.refl _⟩
+  | renew cid' newcid c =>
+    simp only [stepOp]
+    split
+    · rename_i hf
+      split
+      · exact ⟨cs, hc, Evolves.refl _⟩
+      · rename_i cs1 hcs1
+        have hne : cid ≠ newcid := by
+          intro e; subst e
+          simp only [renewOk, hcs1, Bool.and_eq_true] at hf
+          have := hf.1.1.1.1.1.1.1.1.1.1.1.1
+          rw [hc] at this; simp at this
+        by_cases h2 : cid = cid'
+        · subst h2
+          rw [hc] at hcs1; simp only [Option.some.injEq] at hcs1; subst hcs1
+          exact ⟨{ cs with renewed := true }, by simp [upd_other _ _ _ _ hne, upd_same], Evolves.refl _⟩
+        · exact ⟨cs, by simp [upd_other _ _ _ _ hne, upd_other _ _ _ _ h2, hc], Evolves.refl _⟩
+    · exact ⟨cs, hc, Evolves.refl _⟩
+
+theorem run_evolves (ops : List Op) : ∀ (h : Host) (cid : Nat) (cs : CState), h.contracts cid = some cs →
+    ∃ cs', (run h ops).contracts cid = some cs' ∧ Evolves cs.c cs'.c := by
+  induction ops with
+  | nil => intro h cid cs hc; exact ⟨cs, hc, Evolves.refl _⟩
+  | cons op ops ih =>
+    intro h cid cs hc
+    obtain ⟨cs1, h1, e1⟩ := stepOp_evolves h op cid cs hc
+    obtain ⟨cs2, h2, e2⟩ := ih _ cid cs1 h1
+    exact ⟨cs2, h2, e1.trans e2⟩
+
+
 end Verif.Rhp
